@@ -407,4 +407,93 @@ def rule_error_conversion(ctx):
     conv(ctx, 'C12.l')
 
 
-RULES = [('C07.a', rule_a), ('C07.b', rule_b), ('C07.c', rule_c), ('C07.d', rule_d), ('C11.h+C11.b+C09.e+C11.a+C01.h', rule_e), ('C07.e', rule_genpub), ('C12.l', rule_error_conversion)]
+
+def rule_on_subscribe_first(ctx, rule='C07.f'):
+    """C07.f  on_subscribe is the first signal: in every subscribe(subscriber) of a library publisher that delivers
+    on_subscribe - itself or through super().subscribe(...) - that delivery precedes every statement that hands the
+    subscriber (bare or wrapped in an adapter) to a foreign object, because a source that emits synchronously while it
+    is being subscribed (from_iterable, empty, throw, a replaying subject) would otherwise reach the subscriber with
+    elements and the terminal signal before on_subscribe, and with on_subscribe after the terminal signal."""
+    rep = ctx.report
+    repo = ctx.repo
+
+    def delivers(f, depth=0):
+        """Line of the first statement of f that delivers on_subscribe to the subscriber, or None."""
+        sub = [p for p in f.params() if p != 'self']
+        if not sub:
+            return None
+        sub = sub[0]
+        best = None
+        for n in walk_local(f.node):
+            if not isinstance(n, ast.Call) or not isinstance(n.func, ast.Attribute):
+                continue
+            hit = False
+            if n.func.attr == 'on_subscribe':
+                hit = True
+            elif n.func.attr == 'subscribe' and isinstance(n.func.value, ast.Call) and \
+                    isinstance(n.func.value.func, ast.Name) and n.func.value.func.id == 'super' and f.cls is not None \
+                    and depth < 4:
+                for k in f.cls.mro()[1:]:
+                    g = k.methods.get('subscribe')
+                    if g is not None:
+                        hit = delivers(g, depth + 1) is not None
+                        break
+            if hit and (best is None or n.lineno < best):
+                best = n.lineno
+        return best
+
+    def mentions(e, name):
+        return any(isinstance(x, ast.Name) and x.id == name for x in ast.walk(e))
+
+    n = 0
+    for k in repo.all_classes():
+        if not k.module.name.startswith(('rsocket.', 'reactivestreams.')) or k.module.name.startswith('rsocket.cli'):
+            continue
+        f = k.methods.get('subscribe')
+        if f is None or f.is_async:
+            continue
+        params = [p for p in f.params() if p != 'self']
+        if len(params) != 1:
+            continue
+        sub = params[0]
+        h = delivers(f)
+        if h is None:
+            continue
+        n += 1
+        escapes = []
+        # locals that hold the subscriber or an adapter built around it
+        names = {sub}
+        for _ in range(3):
+            for a in walk_local(f.node):
+                if isinstance(a, ast.Assign) and len(a.targets) == 1 and isinstance(a.targets[0], ast.Name) and \
+                        any(mentions(a.value, x) for x in names):
+                    names.add(a.targets[0].id)
+        for c in walk_local(f.node):
+            if not isinstance(c, ast.Call):
+                continue
+            fn = c.func
+            if isinstance(fn, ast.Attribute):
+                recv = fn.value
+                own = isinstance(recv, ast.Name) and recv.id in ('self', sub) or \
+                    isinstance(recv, ast.Call) and isinstance(recv.func, ast.Name) and recv.func.id == 'super' or \
+                    isinstance(recv, ast.Attribute) and isinstance(recv.value, ast.Name) and recv.value.id == 'self' \
+                    and fn.attr == 'on_subscribe'
+                if own:
+                    continue
+            elif isinstance(fn, ast.Name) and (fn.id[:1].isupper() or fn.id in ('isinstance', 'cast', 'id', 'type')):
+                continue  # building an adapter does not hand the subscriber to a running source
+            if any(mentions(a, x) for x in names for a in list(c.args) + [kw.value for kw in c.keywords]):
+                escapes.append(c)
+        early = [c for c in escapes if c.lineno < h]
+        rep.add(rule, '%s.subscribe / on_subscribe before the subscriber reaches a source' % k.name, f, not early,
+                'on_subscribe is delivered (line %d) before %s' % (
+                    h, ', '.join(ast.unparse(c.func) for c in escapes) or 'nothing else sees the subscriber')
+                if not early else
+                '%s(...) receives the subscriber before on_subscribe is delivered: a source that emits while it is '
+                'being subscribed signals first, and on_subscribe arrives after the terminal signal' %
+                ast.unparse(early[0].func))
+    rep.require(rule, 'library publishers that deliver on_subscribe', n, 5)
+
+
+
+RULES = [('C07.a', rule_a), ('C07.b', rule_b), ('C07.c', rule_c), ('C07.d', rule_d), ('C11.h+C11.b+C09.e+C11.a+C01.h', rule_e), ('C07.e', rule_genpub), ('C12.l', rule_error_conversion), ('C07.f', rule_on_subscribe_first)]
